@@ -251,9 +251,20 @@ func (parser *Parser) ParseArray(depth int) (Sexp, error) {
 	return &SexpArray{Val: arr, Env: parser.env}, nil
 }
 
+// MaxParseRecursion bounds how deep the parser recurses: every nesting
+// level of the text costs two activations (ParseExpression plus the
+// list / array / infix parser) of stack.
+const MaxParseRecursion = 20000
+
 func (parser *Parser) ParseExpression(depth int) (res Sexp, err error) {
 	parser.recur++
 	defer func() { parser.recur-- }()
+
+	if parser.recur > MaxParseRecursion {
+		// a text of a million opening brackets must be an error, not
+		// a stack overflow (which is fatal, no recover catches it).
+		return SexpNull, fmt.Errorf("expressions are nested too deeply (more than %d levels)", MaxParseRecursion/2)
+	}
 
 	// defer func() {
 	// 	if res != nil {
